@@ -60,12 +60,51 @@ def check(ctx: Ctx, rep: Report):
     rep.rule("C19.R3", "eco group identity: eco_mode_1 on both sides, groups 2-4 switched off", 4)
     rep.rule("C19.R4", "eco templates satisfy the recogniser predicates field by field; 745 power scaling is an inverse pair", 12)
     rep.rule("C19.R5", "export limit and DoD: setter writes what the getter reads (same id, same involution)", 5)
+    rep.rule("C19.R6", "whatever the group held before: on every path (also when reading the old group fails) the schedule type is forced to an eco type before the group is encoded", 2)
     r1_et(ctx, rep)
     r1_es(ctx, rep)
     r2(ctx, rep)
     r3(ctx, rep)
     r4(ctx, rep)
     r5(ctx, rep)
+    r6(ctx, rep)
+
+
+def r6(ctx: Ctx, rep: Report):
+    """encode_charge / encode_discharge of a Schedule group use self.schedule_type, which the preceding read sets from
+    whatever the inverter holds (Unset, peak shaving, ...) - or leaves half-updated when the read raises."""
+    from ..effects import MayRaise
+    prog, res = ctx.prog, ctx.res
+    explicit = ctx.memo("explicit-raises", lambda: MayRaise(prog, res, lambda node, fn, r: []))
+    for famname in ("ET", "ES"):
+        s = prog.cls(famname).methods["set_operation_mode"]
+        verdicts = {}
+        for p in enumerate_paths(prog, s, explicit.oracle):
+            sel = mode_of_path(ctx, p, s.params[1])
+            if not sel or not (sel <= {"ECO_CHARGE", "ECO_DISCHARGE"}):
+                continue
+            for i, ev in enumerate(p.events):
+                if ev.kind == "call" and (call_chain(ev.node) or ("",))[-1] in ("encode_charge", "encode_discharge"):
+                    recv = (call_chain(ev.node) or ("",))[0]
+                    forced = False
+                    for e2 in p.events[:i]:
+                        if e2.kind == "call" and (call_chain(e2.node) or ("", ""))[-1] == "set_schedule_type" and (call_chain(e2.node) or ("",))[0] == recv \
+                                and e2.node.args and norm(e2.node.args[0]) == "ScheduleType.ECO_MODE":
+                            forced = True
+                    enc = (call_chain(ev.node) or ("",))[-1]
+                    v = verdicts.setdefault(enc, {"ok": True, "path": None, "n": 0})
+                    v["n"] += 1
+                    if not forced and v["ok"]:
+                        v.update(ok=False, path=p)
+        if not verdicts:
+            raise AnalysisError("%s.set_operation_mode: no path reaches encode_charge / encode_discharge" % famname)
+        for enc, v in sorted(verdicts.items()):
+            failed_read = v["path"] is not None and any(ev.kind == "catch" for ev in v["path"].events)
+            rep.check(v["ok"], "C19.R6", "force-type:%s:%s" % (famname, enc), s.loc(),
+                      "%s: set_schedule_type(ScheduleType.ECO_MODE, ...) precedes %s on all %d paths" % (famname, enc, v["n"]),
+                      bad="%s.set_operation_mode: %s is reached without set_schedule_type(ScheduleType.ECO_MODE, ...) %s: the group is encoded with whatever schedule type the old "
+                          "group had (Unset 0x55, peak shaving, ...) and is rejected or mis-scaled [path %s]" % (
+                              famname, enc, "when reading the old group failed" if failed_read else "on the normal path", v["path"].describe(8) if v["path"] else ""))
 
 
 # ----------------------------------------------------------------------- R1
